@@ -49,6 +49,24 @@ func runC26(c *Ctx) {
 					}
 				}
 			}
+			// or the bounds are read here and compared in a predicate helper
+			if !uses {
+				readsBound, hasSlot := false, false
+				for _, ci := range allCalls(fn) {
+					cn := calleeName(ci.Common())
+					if cn == "iface:ledger/common.Transaction.TTL" || cn == "iface:ledger/common.Transaction.ValidityIntervalStart" {
+						readsBound = true
+					}
+					if samePkgHelper(fn, ci.Common()) != nil {
+						for _, a := range ci.Common().Args {
+							if desc(a) == slotA {
+								hasSlot = true
+							}
+						}
+					}
+				}
+				uses = readsBound && hasSlot
+			}
 			if !uses {
 				continue
 			}
